@@ -38,8 +38,23 @@ def main(argv=None):
         prog = Program(a.src)
         ctx = Ctx(pid, a.tier, prog, seed)
         mod.run(ctx)
-        if a.tier == 'thorough' and hasattr(mod, 'run_thorough'):
-            mod.run_thorough(ctx)
+        if a.tier == 'thorough':
+            if hasattr(mod, 'run_thorough'):
+                mod.run_thorough(ctx)
+            if not a.replay and not os.environ.get('TXSA_NO_LIVENESS'):
+                # rule liveness: the property's mutants on scratch copies of
+                # the current tree (never changes the verdict about /repo)
+                from . import selftest
+                os.environ['TXSA_NO_LIVENESS'] = '1'
+                live = selftest.run_subset(pid, prog.root)
+                ctx.extra['rule_liveness'] = live
+                s_ = live.get('summary', {})
+                print('rule liveness: %d mutant(s) of the corpus applied to '
+                      'scratch copies: %s' % (live.get('mutants', 0), s_))
+                for r in live.get('results', []):
+                    if r['status'] in ('MISSED', 'FALSE-ALARM'):
+                        print('ANALYSER-WEAKNESS: %s %s' % (r['mutant'],
+                                                            r['status']))
         if a.replay:
             with open(a.replay) as f:
                 want = json.load(f)['finding']['key']
